@@ -4,8 +4,11 @@ Two-process differential monitor: a probe call is executed (a) in a fresh proces
 calls in one process (other exchange names, spot instead of futures, other leverage / mode / fee / balance, other routes
 and data routes, other warm-up size, other simulator, calls that abort with an exception raised from a strategy hook,
 from an order rejection or from a failpoint injected at the k-th executed line of the simulator). Return value and the
-complete tracer log of the probe must be equal; the arguments must be unmodified; two consecutive identical calls in
-one process must be equal. The harness does NOT clear any jesse state between the calls of a history.
+complete tracer log of the probe must be equal; two consecutive identical calls in one process must be equal. Every
+argument object of every call in a process (config dict, routes and data_routes lists, candle dicts and arrays, warm-up
+candles, hyperparameters) is kept alive and compared with a pre-call deep copy after each later call; in part of the
+histories the probe's own argument objects are passed to an earlier call too, and the fresh process calls the probe three
+times with the same objects with one other call in between. The harness does NOT clear any jesse state between calls.
 """
 import copy
 import hashlib
@@ -28,7 +31,7 @@ RULE = ('probe sessions (futures/spot, 1-2 routes, data routes, warm-up, both si
         'history signature); non-trivial = the fresh probe run has >= 1 trade.')
 ASSUMPTIONS = ['equality of results is NaN-aware deep equality; traces are compared event by event (order ids renamed to ordinals)',
                'a defect present in every process is invisible here (it belongs to the other properties)']
-MIN_OBS = {'histories_compared': 40, 'histories_with_aborted_session': 10, 'probes_with_trades': 8, 'argument_checks': 40,
+MIN_OBS = {'histories_compared': 40, 'histories_with_aborted_session': 10, 'probes_with_trades': 8, 'argument_checks': 400, 'probe_argument_objects_reused': 15, 'third_call_checks': 8,
            'repeat_call_checks': 10, 'dimension:exchange_name': 4, 'dimension:type_same_name': 4, 'dimension:leverage': 4,
            'dimension:fee': 3, 'dimension:warmup': 4, 'dimension:routes': 4, 'dimension:simulator': 4}
 SHARD_TIMEOUT = 600
@@ -171,52 +174,133 @@ class _Failpoint:
         return False
 
 
-def _run(spec, args_check=False):
-    allc = session.build_candles(spec)
-    before = {s: a.copy() for s, a in allc.items()} if args_check else None
+def _snap(x):
+    """deep copy of an argument structure (strategy classes and other non-data leaves are kept by identity)"""
+    if isinstance(x, np.ndarray):
+        return x.copy()
+    if isinstance(x, dict):
+        return {k: _snap(v) for k, v in x.items()}
+    if isinstance(x, (list, tuple)):
+        return type(x)(_snap(v) for v in x)
+    return x
+
+
+def _diff(a, b, path=''):
+    """first path at which the live argument `a` differs from its pre-call snapshot `b` (None when equal)"""
+    if isinstance(b, np.ndarray):
+        if not isinstance(a, np.ndarray) or a.shape != b.shape or a.dtype != b.dtype or not np.array_equal(a, b, equal_nan=True):
+            return path or '.'
+        return None
+    if isinstance(b, dict):
+        if not isinstance(a, dict) or list(a.keys()) != list(b.keys()):
+            return f'{path} keys {list(a.keys()) if isinstance(a, dict) else type(a).__name__} != {list(b.keys())}'
+        for k in b:
+            d = _diff(a[k], b[k], f'{path}[{k!r}]')
+            if d:
+                return d
+        return None
+    if isinstance(b, (list, tuple)):
+        if type(a) is not type(b) or len(a) != len(b):
+            return f'{path} length {len(a) if hasattr(a, "__len__") else type(a).__name__} != {len(b)}'
+        for i, (x, y) in enumerate(zip(a, b)):
+            d = _diff(x, y, f'{path}[{i}]')
+            if d:
+                return d
+        return None
+    if a is b:
+        return None
+    if type(a) is not type(b) or a != b:
+        return f'{path}: {a!r} != {b!r}'
+    return None
+
+
+class _Held:
+    """every argument object handed to research.backtest in this process stays alive and is compared with its pre-call
+    snapshot after each later call: a modification that only happens one or two calls later is still observed"""
+
+    def __init__(self):
+        self.items = []     # (label, args, snapshot)
+        self.checks = 0
+        self.found = {}
+
+    def add(self, label, args):
+        self.items.append((label, args, _snap(args)))
+
+    def check(self, after):
+        for label, args, snap in self.items:
+            for name in snap:
+                self.checks += 1
+                d = _diff(args[name], snap[name], name)
+                if d and name not in self.found:
+                    self.found[name] = f'argument `{name}` of call {label} differs after call {after}: {d}'
+
+
+def _run(spec, held=None, label='', prepared=None):
+    if prepared is None:
+        allc = session.build_candles(spec)
+        prepared = (allc, session.build_args(spec, allc))
+        if held is not None:
+            held.add(label, prepared[1])
+    allc, args = prepared
     fp = spec.get('failpoint')
     if fp:
         with _Failpoint(fp['after_lines']):
-            out = session.run_session(spec, candles=allc)
+            out = session.run_session(spec, candles=allc, args=args)
     else:
-        out = session.run_session(spec, candles=allc)
-    changed = None
-    if args_check:
-        changed = [s for s in allc if not np.array_equal(allc[s], before[s])]
-    return out, changed
+        out = session.run_session(spec, candles=allc, args=args)
+    if held is not None:
+        held.check(label)
+    return out, prepared
 
 
 def run_job(job):
     probe = job['probe']
     cnt, viol = {}, []
     info = {'kind': job['kind'], 'pid': job['pid']}
+    held = _Held()
+    prepared = None
     if job['kind'] == 'history':
         aborted = 0
-        for h in job['history']:
-            out, _ = _run(h)
+        reuse_at = job.get('reuse_at')
+        for i, h in enumerate(job['history']):
+            if reuse_at == i:
+                # the very argument objects of the probe are used for an earlier call as well (a research loop that keeps its
+                # routes / data_routes / candles objects and calls backtest repeatedly)
+                _, prepared = _run(probe, held, 'probe#early')
+                cnt['probe_argument_objects_reused'] = 1
+            out, _ = _run(h, held, f'history#{i}')
             if out['error']:
                 aborted += 1
         info['aborted_earlier'] = aborted
-    out, changed = _run(probe, args_check=True)
+    out, prepared = _run(probe, held, 'probe', prepared)
     info['events'] = _ser_events(out['events'])
     info['result'] = _result_digest(out['result'])
     info['error'] = out['error'] and out['error']['type'] + ':' + out['error']['msg'][:120]
     info['trades'] = (out['result'] or {}).get('metrics', {}).get('total', 0) if out['result'] else 0
     info['submits'] = sum(1 for e in out['events'] if e['k'] == 'submit')
-    cnt['argument_checks'] = 1
-    if changed:
-        viol.append({'key': 'candle_arguments_modified', 'msg': f'research.backtest modified the candle arrays of {changed}',
-                     'witness': {'probe_class': job['klass']}})
     if job['kind'] == 'fresh' and job.get('repeat'):
-        out2, _ = _run(probe)
+        # same argument objects again; then a different call; then the objects are looked at once more
+        out2, _ = _run(probe, held, 'probe#repeat', prepared)
         cnt['repeat_call_checks'] = 1
         if _result_digest(out2['result']) != info['result'] or _ser_events(out2['events']) != info['events']:
             a, b = info['events'], _ser_events(out2['events'])
             i = next((i for i in range(min(len(a), len(b))) if a[i] != b[i]), min(len(a), len(b)))
             viol.append({'key': 'consecutive_identical_calls_differ',
-                         'msg': f'second identical call differs at trace event {i}: {a[i][:300] if i < len(a) else None} vs '
-                                f'{b[i][:300] if i < len(b) else None}',
+                         'msg': f'second identical call (same argument objects) differs at trace event {i}: '
+                                f'{a[i][:300] if i < len(a) else None} vs {b[i][:300] if i < len(b) else None}',
                          'witness': {'probe': probe}})
+        if job.get('then'):
+            _run(job['then'], held, 'other-after-probe')
+            out3, _ = _run(probe, held, 'probe#third', prepared)
+            cnt['third_call_checks'] = 1
+            if _result_digest(out3['result']) != info['result'] or _ser_events(out3['events']) != info['events']:
+                viol.append({'key': 'call_with_reused_argument_objects_differs',
+                             'msg': 'the probe called a third time with the same argument objects, after one other call, differs '
+                                    'from its first run', 'witness': {'probe': probe, 'between': job['then'].get('dims')}})
+    cnt['argument_checks'] = held.checks
+    cnt['calls_with_held_arguments'] = len(held.items)
+    for name, msg in held.found.items():
+        viol.append({'key': f'arguments_modified:{name}', 'msg': msg, 'witness': {'probe_class': job['klass'], 'kind': job['kind']}})
     return {'viol': viol, 'cnt': cnt, 'sigs': [], 'info': info}
 
 
@@ -286,8 +370,10 @@ def make_jobs(tier, seed):
     for p in range(nprobes):
         klass = 'spot' if p % 3 == 2 else 'futures'
         probe = _probe_spec(rng, klass)
-        jobs.append({'kind': 'fresh', 'pid': p, 'klass': klass, 'probe': probe, 'repeat': True})
+        then, _ = _history(rng, probe, 1)
+        jobs.append({'kind': 'fresh', 'pid': p, 'klass': klass, 'probe': probe, 'repeat': True, 'then': then[0]})
         for hcount in range(5 if tier == 'quick' else 8):
             hist, dims = _history(rng, probe, rng.choice([1, 1, 2, 3, 4]))
-            jobs.append({'kind': 'history', 'pid': p, 'klass': klass, 'probe': probe, 'history': hist, 'dims': dims})
+            jobs.append({'kind': 'history', 'pid': p, 'klass': klass, 'probe': probe, 'history': hist, 'dims': dims,
+                         'reuse_at': rng.choice([None, 0, 0, len(hist) - 1])})
     return jobs
